@@ -28,6 +28,9 @@ EXTENDS SNLife, TLC
 CONSTANTS Impl, ExcludeKF,
           KindSet, NBrSet, MaxBlocks, UseSet, PoolSet, GumbelSet, HardSet,
           BigN,        \* 0, or the size of the big single block
+          NameFamily,  \* "plain" | "collide": block names drawn from BlockNamePool, fixed layers named so
+                       \* that they extend / are extended by / share leaf names with the block names
+          NameImpl,    \* naming rule of the top-level cost loop that is checked (see SNLife!Inside)
           Acts,        \* enabled actions
           D            \* theta is explored in units of 1/D
 
@@ -42,13 +45,17 @@ BigBlocks  == IF BigN = 0 THEN {}
                      uses |-> 1, pool |-> FALSE] :
                         pq \in {x \in (1..BigN) \X (1..BigN) : x[1] < x[2]}, kk \in KindSet \X KindSet}
 BlockSeqs  == UNION {[1..k -> BlockSkels] : k \in 1..MaxBlocks} \cup {<<bb>> : bb \in BigBlocks}
-NetSkels   == {[gumbel |-> g, hard0 |-> h, blocks |-> bs] : g \in GumbelSet, h \in HardSet, bs \in BlockSeqs}
+Namings(k)  == IF NameFamily = "plain" THEN {<<>>}
+               ELSE {nm \in [1..k -> BlockNamePool] : \A a, b \in 1..k : a # b => nm[a] # nm[b]}
+NetSkels   == {[gumbel |-> g, hard0 |-> h, blocks |-> bs, naming |-> nm] :
+                  g \in GumbelSet, h \in HardSet, bs \in BlockSeqs, nm \in UNION {Namings(k) : k \in 1..MaxBlocks}}
+NetSkelsOK == {s \in NetSkels : s.naming = <<>> \/ Len(s.naming) = Len(s.blocks)}
 
 MaxW == MaxOf(NBrSet \cup {BigN}) - 1
 N == WithCT(net)                       \* the network with its (abstract) cost tables
 
 Init ==
-    /\ net \in NetSkels
+    /\ net \in NetSkelsOK
     /\ win = [b \in 1..Len(net.blocks) |-> 0]          \* uniform coefficients: torch.argmax gives 0
     /\ hard = net.hard0
     /\ training = TRUE                                 \* the harness calls train() after construction
@@ -93,7 +100,7 @@ Spec == Init /\ [][Next]_vars
 \* Invariant bodies take the network with its cost tables (n), the as-implemented / reference export
 \* (e) and the set of theta vectors compatible with the stored sample classes (ths) as arguments, so
 \* that TLC evaluates WithCT(net) once per invariant and state (LET definitions are cached).
-GuardExp(n)  == ~(ExcludeKF /\ F03Sig(n, win))
+GuardExp(n)  == ~(ExcludeKF /\ Impl = "pinned" /\ F03Sig(n, win))
 GuardCost(n) == ~(ExcludeKF /\ F23Net(n))
 
 \* every theta vector compatible with what the combiners currently store
@@ -108,8 +115,8 @@ TypeOK ==
 C03_ExportSucceeds == LET n == N IN GuardExp(n) => ~ExportFails(Export(Impl, n, win))
 C03_ExportIsWinner == LET n == N IN GuardExp(n) => Export(Impl, n, win) = Export("ref", n, win)
 C03_KeptModules    == LET n == N IN GuardExp(n) => KeptCounts(n, Export(Impl, n, win)) = KeptCounts(n, win)
-\* the signature of F03 is exact: the as-implemented export deviates iff a winner has a functional tail
-F03SigExact == LET n == N IN F03Sig(n, win) <=> (Export("asis", n, win) # Export("ref", n, win))
+\* the signature of F03 (repaired by 3afbd30) is exact: the PINNED export deviates iff a winner has a functional tail
+F03SigExact == LET n == N IN F03Sig(n, win) <=> (Export("pinned", n, win) # Export("ref", n, win))
 
 \* ---- C06
 C06_Bounds ==
@@ -136,6 +143,18 @@ C06_StoredHot ==
     (GuardCost(n) /\ \A b \in 1..NB(n) : cls[b].c = "hot") =>
         \A m \in Metrics, f \in BOOLEAN : \A th \in ths :
             Mix(Impl, m, n, th, f, D) = D * ExportCost(m, n, [b \in 1..NB(n) |-> cls[b].at], f)
+
+\* ---- names: what is charged at top level under full_cost is decided by the structure, not by the names
+\* (the family "collide" makes fixed-layer names extend block names, be numeric siblings f.1 / f.10 of a
+\* long Sequential, and repeat leaf names of block-internal layers in other containers)
+C06_FullCostAllFixed ==
+    LET n == N  int == InternalNames(n) IN
+    ~ReservedClash(FixedNames(n)) =>
+        /\ \A k \in 1..Len(n.fixedl) : ~Inside(NameImpl, n.names, int, n.fixedl[k].name)
+        /\ \A x \in int : Inside(NameImpl, n.names, int, x)
+        /\ \A m \in Metrics : FixedChargedCost(NameImpl, m, n, int) = FixedCost(m, n)
+\* non-vacuity of the family: it does contain prefix collisions
+NamesCollide == LET n == N IN NameFamily = "collide" => PrefixCollision(n.names, FixedNames(n))
 
 \* the signature of F23 is exact
 F23SigExact ==
